@@ -1,6 +1,7 @@
 package texttable
 
 import (
+	"go.pennock.tech/tabular"
 	"go.pennock.tech/tabular/length"
 	"go.pennock.tech/tabular/properties/align"
 	"go.pennock.tech/tabular/texttable/decoration"
@@ -234,4 +235,37 @@ func vfRectangle(out string, ncols int, ws []int, boxless bool) {
 		}
 	}
 	vfAssert(start == len(out), "newline-terminated")
+}
+
+type vfMutableText struct{ s string }
+
+func (m *vfMutableText) String() string { return m.s }
+
+// verifUpdated: a cell whose item changed text (also to the empty string, to fewer or more lines, or to
+// another text of exactly the same size) and was updated is laid out by its new text.
+func verifUpdated() {
+	texts := []string{"", "ab", "abc\nd", "x\ny\nz", "wide-text", "cd", "xyz\nw", "up  ", "down"}
+	t := New()
+	m := &vfMutableText{texts[1+vfChoice("before", 8)]}
+	t.AddHeaders("h1", "h2")
+	t.AddRowItems(m, "q")
+	t.AddRowItems("r")
+	if vfChoice("render-first", 2) == 1 {
+		t.Render()
+	}
+	after := texts[vfChoice("after", 9)]
+	m.s = after
+	c, _ := t.CellAt(tabular.CellLocation{Row: 1, Column: 1})
+	c.Update()
+	name := vfDecoNames[vfChoice("deco", 3)]
+	t.SetDecorationNamed(name)
+	d := decoration.Named(name)
+	out, err := t.Render()
+	vfAssert(err == nil, "render-ok")
+	one := func(s string) vfCellSpec { return vfCellSpec{lines: vfLinesOf(s), declW: -1, declH: -1} }
+	hdr := []vfCellSpec{one("h1"), one("h2")}
+	rows := []vfRowSpec{{cells: []vfCellSpec{one(after), one("q")}}, {cells: []vfCellSpec{one("r")}}}
+	want := vfRefRender(d, d == decoration.NoBox(), true, hdr, rows, 2, make([]int, 2))
+	vfAssert(out == want, "layout-as-documented")
+	vfRectangle(out, 2, vfColWidths(hdr, rows, 2), d == decoration.NoBox())
 }
